@@ -1,6 +1,8 @@
 package main
 
 import (
+	"html"
+
 	"github.com/google/safehtml"
 )
 
@@ -30,6 +32,9 @@ func init() {
 	})
 	reg("m_html_escaped", 1, func(c *caseWriter, in []string) {
 		c.Case("m_html_escaped", hx(in[0]), hx(safehtml.HTMLEscaped(in[0]).String()))
+	})
+	reg("m_html_unescape", 1, func(c *caseWriter, in []string) {
+		c.Case("m_html_unescape", hx(in[0]), hx(html.UnescapeString(in[0])))
 	})
 	reg("m_coerce", 1, func(c *caseWriter, in []string) {
 		c.Case("m_coerce", hx(in[0]), hx(safehtml.VerifCoerceToUTF8InterchangeValid(in[0])))
